@@ -95,12 +95,27 @@ BcryptReason(e) == IF Len(e.pw) > 72 THEN "password longer than 72 bytes"
                    ELSE IF K!HasZero(e.pw) THEN "password contains the zero byte"
                    ELSE IF e.bcost < 4 \/ e.bcost > 31 THEN "cost outside 4..31"
                    ELSE IF Len(e.salt) # 16 THEN "salt is not 16 bytes long" ELSE ""
-\* e.eks: the EksBlowfish value is recomputed (minutes of TLC time); otherwise only the structure of the string is judged
+\* e.eks: the EksBlowfish value is recomputed in one piece (minutes of TLC time); otherwise only the structure of the string is judged
+\* here and the value, for the records the orchestrator selects, through the "eks-link" / "eks-final" records below
 BcryptVerdict(e) == LET reason == BcryptReason(e) IN
    IF ~Consistent(reason, K!BcryptDomain(e.pw, e.bcost, e.salt)) THEN "harness: domain predicates disagree"
    ELSE Judge(e, reason, FALSE, FALSE, FALSE,
               IF ~K!BcryptShapeOk(e.out, e.bcost, e.salt) THEN "hash string malformed"
               ELSE IF e.eks /\ e.out # K!Bcrypt(e.pw, e.bcost, e.salt) THEN DIFFERS ELSE "ok")
+\* The EksBlowfish setup of one bcrypt value as a chain of 1 + 2 * 2^cost key expansions with claimed intermediate states (untrusted
+\* witnesses, DESIGN.md 4.5: computed by harness Python, never believed).  An "eks-link" record claims state i-1 -> state i; TLC derives
+\* what link i expands with (the salt and the key of the call) and recomputes the 521 encryptions of that one link.  The orchestrator
+\* only checks that consecutive records quote the same state.  A refused link is a wrong witness (machinery), never a violation.
+SameState(a, b) == a.p = b.p /\ a.s = b.s
+EksLinkVerdict(e) ==
+   IF e.i < 0 \/ e.i >= K!EksLinkCount(e.bcost) \/ BcryptReason(e) # "" THEN "harness: no such link"
+   ELSE IF SameState(K!EksLink(e.i, e.s_in, e.salt, K!BcryptKey(e.pw)), e.s_out) THEN "ok" ELSE "harness: witness link refused"
+\* the end of the chain: the value the implementation returned against 64 ECB encryptions of "OrpheanBeholderScryDoubt" under the
+\* last state of a chain of the right length
+EksFinalVerdict(e) ==
+   IF BcryptReason(e) # "" \/ e.exc # "none" THEN "harness: not a value record"
+   ELSE IF e.nlinks # K!EksLinkCount(e.bcost) THEN "harness: chain of the wrong length"
+   ELSE IF e.out = K!BcryptOfRaw(e.bcost, e.salt, K!BcryptRawFrom(e.state)) THEN "ok" ELSE DIFFERS
 \* bcrypt_check(password, hash) must return iff hash is the 60-character string bcrypt(password, cost, salt) for the cost and salt it
 \* carries, and raise ValueError otherwise.  bcrypt(password, cost, salt) is taken from the recorded reference call e.ref of the
 \* implementation's own bcrypt() (whose values module KDF recomputes in the bcrypt records flagged eks); TLC decodes cost and salt from
@@ -131,6 +146,8 @@ Verdict(e) == CASE e.alg = "pbkdf1" -> Pbkdf1Verdict(e)
                 [] e.alg = "bcrypt" -> BcryptVerdict(e)
                 [] e.alg = "bcrypt_check" -> CheckVerdict(e)
                 [] e.alg = "s2v" -> S2vVerdict(e)
+                [] e.alg = "eks-link" -> EksLinkVerdict(e)
+                [] e.alg = "eks-final" -> EksFinalVerdict(e)
                 [] OTHER -> "harness: unknown record kind"
 VARIABLES t
 TInit == t = 1
